@@ -194,3 +194,9 @@ def _b_cs_side(eng, st, recv, args, kwargs):
 
 
 B.BUILTIN_FUNCS["cs_side"] = _b_cs_side
+
+
+# one generation task per behaviour of the application's resolver (the enumeration in world._resolver_call is exhaustive for
+# the wrapper's decision table; the behaviours not listed here are proved equivalent to "none" by safe_call_resolver_table)
+CONFIG_SETS["resolver_cases"] = [{"name": "resolver=%s" % b, "resolver": b}
+                                 for b in ("pick0", "pick1", "none", "raise-other")]
